@@ -241,6 +241,20 @@ MUTANTS = [
      'edits': [(VM, "    pub fn native_arg(&self, index: usize) -> Value {", "    #[cfg(debug_assertions)]\n    pub fn check_invariants(&self) -> bool {\n        self.fiber.is_some()\n    }\n\n    pub fn native_arg(&self, index: usize) -> Value {")]},
     {'name': 'V4 raw fiber pointer not updated on yield (optimised world only)', 'prop': 'C10', 'expect': 'F1[rel] / yarel::vm::Vm::unload_fiber',
      'edits': [(VM, "            self.unsafe_fiber = (*caller).as_ptr();\n", "")]},
+    # ---- C15 ----------------------------------------------------------------------------------------
+    {'name': 'N1 exception-in-flight flag survives a failed run', 'prop': 'C15', 'expect': 'N1 / Vm.handling_exception',
+     'edits': [(VM, "        self.handling_exception = false;\n        let module = self.module(&function.module_path);", "        let module = self.module(&function.module_path);")]},
+    {'name': 'N1 new per-run counter on Vm never reset', 'prop': 'C15', 'expect': 'N1 / Vm.pending_throws',
+     'edits': [(VM, "    handling_exception: bool,\n}", "    handling_exception: bool,\n    pending_throws: usize,\n}"),
+               (VM, "            handling_exception: false,\n        };", "            handling_exception: false,\n            pending_throws: 0,\n        };"),
+               (VM, "        self.handling_exception = true;\n        self.active_fiber_mut().error_ip = Some(self.ip);", "        self.handling_exception = true;\n        self.pending_throws += 1;\n        self.active_fiber_mut().error_ip = Some(self.ip);")]},
+    {'name': 'N1 fiber reset only on the success path of execute', 'prop': 'C15', 'expect': 'N1 / Vm.ip',
+     'edits': [(VM, "        self.ip = ptr::null();\n        self.fiber = None;", "        if args.is_empty() {\n            self.ip = ptr::null();\n        }\n        self.fiber = None;"),
+               (VM, "        self.active_chunk = prev_chunk;\n        self.active_module = prev_module;\n        self.ip = new_ip;", "        self.active_chunk = prev_chunk;\n        self.active_module = prev_module;\n        if !new_ip.is_null() {\n            self.ip = new_ip;\n        }")]},
+    {'name': 'N2 runtime_error keeps the failed stack', 'prop': 'C15', 'expect': 'N2 / runtime_error resets the stack',
+     'edits': [(VM, "        self.reset_stack();\n\n        error.clone()", "        error.clone()")]},
+    {'name': 'N4 reset keeps user chunks', 'prop': 'C15', 'expect': 'N4 / Vm.chunks survives reset()',
+     'edits': [(VM, "        self.chunks = self.core_chunks.clone();\n", "")]},
 ]
 
 BENIGN = [
